@@ -193,6 +193,13 @@ def main():
             gen_obl += list(_pyobject.obligations_for(sp, modelmod.LEAN_DIR, list(mod.PYOBJECT_METHODS)))
         except Exception as e:  # fail closed
             gen_obl.append({'name': 'pyobject-translator', 'ok': False, 'detail': 'translator crashed: %r' % (e,)})
+    # Curve/Surface overrides (harness/translate/override_translate.py, Lemmas/PyOverrideEq.lean)
+    if getattr(mod, 'PYOVERRIDE_METHODS', None):
+        from props import _pyoverride
+        try:
+            gen_obl += list(_pyoverride.obligations_for(sp, modelmod.LEAN_DIR, list(mod.PYOVERRIDE_METHODS)))
+        except Exception as e:  # fail closed
+            gen_obl.append({'name': 'pyoverride-translator', 'ok': False, 'detail': 'translator crashed: %r' % (e,)})
     gen_failed_known = []
     for o in gen_obl:
         if not o.get('ok'):
